@@ -63,7 +63,7 @@ def Avail (cfg : Cfg) (i : Isa) : Prop := ∀ b ∈ reqBits i, bitSet cfg b = tr
 def archRules : List (Bit × List Bit) := [
   ((.l1ecx, 20), [(.l1ecx, 19)]),                                   -- SSE4.2 ⇒ SSE4.1
   ((.l1ecx, 19), [(.l1ecx, 9)]),                                    -- SSE4.1 ⇒ SSSE3
-  ((.l1ecx, 28), [(.l1ecx, 20), (.l1ecx, 27)]),                     -- AVX ⇒ SSE4.2, (usable only with) OSXSAVE
+  ((.l1ecx, 28), [(.l1ecx, 20)]),                                   -- AVX ⇒ SSE4.2 (NOT OSXSAVE: the OS may leave XSAVE off)
   ((.l7ebx, 5), [(.l1ecx, 28)]),                                    -- AVX2 ⇒ AVX
   ((.l7ebx, 16), [(.l7ebx, 5)]),                                    -- AVX512F ⇒ AVX2
   ((.l7ebx, 17), [(.l7ebx, 16)]), ((.l7ebx, 28), [(.l7ebx, 16)]),   -- DQ, CD ⇒ F
@@ -117,6 +117,8 @@ def checkPath (p : List Instr) (need : Nat → List Isa) (minBits : List Bit) (r
   match r.2.cell with
   | some (.sym s) =>
       let known := closure allRules 8 (minBits ++ knownOnes r.1)
+      -- the resolver itself: XGETBV only on paths that established CPUID.1:ECX.OSXSAVE (else #UD)
+      (!r.2.xg || known.contains (.l1ecx, 27)) &&
       (need s).all fun i => (reqBits i).all fun b => known.contains b
   | _ => false
 
